@@ -342,19 +342,42 @@ pub fn run(ctx: &mut Ctx) {
         let placements = 7u64; // question, owner, NS, MX, SOA(mname), SRV, RRSIG(signer)
         let ntargets = 15u64;
         let total = placements * ntargets.pow(3) * 8;
-        for idx in 0..total {
+        // the id field of the header may itself hold pointer bytes (self pointer, pointer to the counts, to offset 12)
+        let ids: [[u8; 2]; 4] = [[0, 0], [0xC0, 0x00], [0xC0, 0x04], [0xC0, 0x0C]];
+        for idx in 0..total * 4 {
             if !ctx.take("ptrgraph", idx) {
                 continue;
             }
             let mut k = idx;
+            let idv = ids[(k % 4) as usize];
+            k /= 4;
             let place = (k % placements) as usize;
             k /= placements;
             let labels = (k % 8) as usize;
             k /= 8;
             let t: Vec<usize> = digits(k, ntargets, 3);
-            let b = pointer_graph(place, labels, &t);
+            let mut b = pointer_graph(place, labels, &t);
+            b[0] = idv[0];
+            b[1] = idv[1];
             check_parse(ctx, "ptrgraph", idx, &b);
             ctx.add("pointer_graph_cases", 1);
+        }
+        // pointer pieces that live BEFORE the name being parsed (inside the RDATA of an earlier record): cycles and
+        // chains among them are only reachable through a later name that points into that region
+        let mut idx = 0u64;
+        for final_target in 0..3usize {
+            for labels in 0..8usize {
+                for tk in 0..6u64.pow(3) {
+                    idx += 1;
+                    if !ctx.take("ptrpre", idx) {
+                        continue;
+                    }
+                    let t = digits(tk, 6, 3);
+                    let b = pre_cycle_graph(final_target, labels, &t);
+                    check_parse(ctx, "ptrpre", idx, &b);
+                    ctx.add("pointer_graph_cases_in_earlier_rdata", 1);
+                }
+            }
         }
         ctx.sample("ptrgraph", || json!({"example": hex(&pointer_graph(2, 5, &[3, 7, 12]))}));
     }
@@ -499,6 +522,45 @@ pub fn sample_file_messages() -> Vec<Vec<u8>> {
         }
     }
     out
+}
+
+/// first answer: a NULL-type record whose RDATA holds three pointer pieces; second answer: owner = pointer to one of them
+fn pre_cycle_graph(final_target: usize, labels: usize, t: &[usize]) -> Vec<u8> {
+    let mut b = vec![0u8; 12];
+    b[7] = 2;
+    // record 1: root owner, type 10, class IN, ttl 0, rdlength patched
+    b.extend_from_slice(&[0, 0, 10, 0, 1, 0, 0, 0, 0, 0, 0]);
+    let rd_start = b.len();
+    let piece_len = |i: usize| if labels >> i & 1 == 1 { 4 } else { 2 };
+    let mut starts = Vec::new();
+    let mut o = rd_start;
+    for i in 0..3 {
+        starts.push(o);
+        o += piece_len(i);
+    }
+    for i in 0..3 {
+        let target = match t[i] {
+            0 => starts[0],
+            1 => starts[1],
+            2 => starts[2],
+            3 => 0,
+            4 => 12,
+            _ => starts[i] + if labels >> i & 1 == 1 { 2 } else { 0 }, // the pointer itself
+        };
+        if labels >> i & 1 == 1 {
+            b.extend_from_slice(&[1, b'a']);
+        }
+        b.push(0xC0 | ((target >> 8) as u8 & 0x3F));
+        b.push(target as u8);
+    }
+    let rdlen = (b.len() - rd_start) as u16;
+    b[rd_start - 2..rd_start].copy_from_slice(&rdlen.to_be_bytes());
+    // record 2: owner = pointer into the region above
+    let ft = starts[final_target];
+    b.push(0xC0 | (ft >> 8) as u8);
+    b.push(ft as u8);
+    b.extend_from_slice(&[0, 1, 0, 1, 0, 0, 0, 0, 0, 4, 1, 2, 3, 4]);
+    b
 }
 
 fn pointer_graph(place: usize, labels: usize, t: &[usize]) -> Vec<u8> {
